@@ -196,6 +196,11 @@ func (c *AbstractTokenizer) ReadNextToken() *Token {
 	var token *Token = nil
 
 	for true {
+		// Position of the token read in this iteration (tokens skipped before it have their own)
+		line = c.Scanner.PeekLine()
+		column = c.Scanner.PeekColumn()
+		token = nil
+
 		// Read character
 		nextChar := c.Scanner.Peek()
 
@@ -219,7 +224,6 @@ func (c *AbstractTokenizer) ReadNextToken() *Token {
 
 		// Skip unknown characters if option set.
 		if token.Type() == Unknown && c.skipUnknown {
-			c.LastTokenType = token.Type()
 			continue
 		}
 
@@ -230,13 +234,11 @@ func (c *AbstractTokenizer) ReadNextToken() *Token {
 
 		// Skips comments if option set.
 		if token.Type() == Comment && c.skipComments {
-			c.LastTokenType = token.Type()
 			continue
 		}
 
 		// Skips whitespaces if option set.
 		if token.Type() == Whitespace && c.LastTokenType == Whitespace && c.skipWhitespaces {
-			c.LastTokenType = token.Type()
 			continue
 		}
 
